@@ -61,6 +61,14 @@ type shape struct {
 	// parameter (PublishContext[any], routed by the dynamic type)
 	reversed bool
 	viaAny   bool
+	// filterRej: the Sequential handler has a filter that rejects the (filterRej-1)-th event of
+	// every publisher: a rejected event must not reach it and must not disturb the turn of
+	// the invocations around it
+	filterRej int
+	// onceBefore: the handler list is [a plain handler with a scheduling point in its body, a
+	// Once handler, the Sequential handler]: the Once handler retires (the list shrinks)
+	// while another publisher may be anywhere in it
+	onceBefore bool
 }
 
 type inst struct {
@@ -126,7 +134,15 @@ func (in *inst) Body() {
 	if s.republish == 2 {
 		B.SubCustom(bus, func(gctx context.Context, id int) { pubWith(A, gctx, 100+id) }, nil, evt.SubOpts{Async: true, Ctx: true})
 	}
-	A.SubCustom(bus, mk(0), nil, evt.SubOpts{Sequential: true, Async: s.async, Ctx: s.ctx, Reversed: s.reversed})
+	var filter func(int) bool
+	if s.filterRej > 0 {
+		filter = func(id int) bool { return id%100 != s.filterRej-1 }
+	}
+	if s.onceBefore {
+		A.SubCustom(bus, func(context.Context, int) { vrt.Point() }, nil, evt.SubOpts{})
+		A.SubCustom(bus, func(context.Context, int) {}, nil, evt.SubOpts{Once: true})
+	}
+	A.SubCustom(bus, mk(0), filter, evt.SubOpts{Sequential: true, Async: s.async, Ctx: s.ctx, Reversed: s.reversed})
 	if s.second {
 		A.SubCustom(bus, mk(1), nil, evt.SubOpts{Sequential: true, Async: s.async, Reversed: s.reversed})
 	}
@@ -325,6 +341,12 @@ func (in *inst) Check(res *vrt.Result) []vrt.Violation {
 				if in.s.cancelWaiter && cnt[id] == 0 {
 					continue // its context may have been cancelled before it was dispatched
 				}
+				if in.s.filterRej > 0 && hid == 0 && i == in.s.filterRej-1 {
+					if cnt[id] != 0 {
+						bad("delivery-count", fmt.Sprintf("%s sequential handler received an event its filter rejects", kindOf(in.s)), fmt.Sprintf("handler %d event %d", hid, id))
+					}
+					continue
+				}
 				if cnt[id] != 1 {
 					bad("delivery-count", fmt.Sprintf("%s sequential handler received an event %d times", kindOf(in.s), cnt[id]), fmt.Sprintf("handler %d event %d", hid, id))
 				}
@@ -388,6 +410,14 @@ func shapes(thorough bool) []shape {
 		{name: "sync/published-through-any/3publishers", viaAny: true, pubs: []int{1, 1, 1}},
 		{name: "sync-ctx/published-through-any/2x2", viaAny: true, ctx: true, pubs: []int{2, 2}},
 		{name: "async/published-through-any/two-publishers", viaAny: true, async: true, pubs: []int{2, 1}},
+		{name: "async/filter-rejects-the-third-event/one-publisher-3", async: true, filterRej: 3, pubs: []int{3}},
+		{name: "async/filter-rejects-the-second-event/one-publisher-3", async: true, filterRej: 2, pubs: []int{3}},
+		{name: "async/filter-rejects-the-first-event/one-publisher-3", async: true, filterRej: 1, pubs: []int{3}},
+		{name: "async-ctx/filter-rejects-the-second-event/two-publishers", async: true, ctx: true, filterRej: 2, pubs: []int{2, 2}},
+		{name: "sync/filter-rejects-the-second-event/2x2", filterRej: 2, pubs: []int{2, 2}},
+		{name: "sync/behind-a-plain-and-a-once-handler/2publishers", onceBefore: true, pubs: []int{1, 1}},
+		{name: "sync/behind-a-plain-and-a-once-handler/2+1", onceBefore: true, pubs: []int{2, 1}},
+		{name: "async/behind-a-plain-and-a-once-handler/2publishers", onceBefore: true, async: true, pubs: []int{1, 1}},
 		{name: "sync/sequential-handler-publishes-to-another-sequential-handler", nestedSeq: true, pubs: []int{0}},
 		{name: "async/sequential-handler-publishes-to-another-sequential-handler", nestedSeq: true, async: true, pubs: []int{0}},
 		{name: "sync/sequential-handlers-on-two-buses-one-waits-for-the-other", twoBuses: true, pubs: []int{0}},
